@@ -127,10 +127,23 @@ theorem reflect_negated_axis_real {g axis : Geonum ℝ} (hg : g.angle.Inv) (hax 
   have hT : T axis.negate.angle = T axis.angle + Real.pi := negate_total_real hax
   exact ⟨δ, m + 1, hδ, by rw [h, hT]; push_cast; ring⟩
 
+/-- (E) **reflecting twice restores the direction** (modulo whole turns, within six snap tolerances), and the magnitude field -/
+theorem reflect_involution_real {g axis : Geonum ℝ} (hg : g.angle.Inv) (hax : axis.angle.Inv) :
+    ((g.reflect axis).reflect axis).mag = g.mag ∧
+    ∃ (δ : ℝ) (m : ℤ), |δ| < 6 * (1 / 10 ^ 10 + 1 / 10 ^ 15) ∧
+      T ((g.reflect axis).reflect axis).angle = T g.angle + δ + (m : ℝ) * (2 * Real.pi) := by
+  refine ⟨rfl, ?_⟩
+  obtain ⟨δ1, m1, hδ1, h1⟩ := reflect_direction_real hg hax
+  have hrinv : (g.reflect axis).angle.Inv := (reflect_blades hg hax).1
+  obtain ⟨δ2, m2, hδ2, h2⟩ := reflect_direction_real hrinv hax
+  refine ⟨δ2 - δ1, m2 - m1, ?_, ?_⟩
+  · have := abs_sub δ2 δ1
+    linarith
+  · rw [h2, h1]; push_cast; ring
+
 end E
 
-/-! PARTIAL (not yet proved): the involution `reflect ∘ reflect` as a composed statement (follows from `reflect_direction_real`
-    applied twice, slack 6 tolerances) and the Cartesian meaning of scale-rotate.  Explored by `oracle.C12.*`. -/
+/-! PARTIAL (not yet proved): the Cartesian meaning of scale-rotate (explored by `oracle.C12.scale_rotate`). -/
 
 example {F : Type} [FloatSpec F] : (⟨zero, 6⟩ : Angle F).Inv := inv_zero 6
 
